@@ -455,14 +455,32 @@ func r09_5(c *Ctx, rule string) {
 		// rooted at the captured Dir (d.Stat.Path), not at the entry's stat
 		return isFieldLoad(b, "fsutil.Dir.Stat")
 	}
-	joinWithDir := func(v ssa.Value, other func(ssa.Value) bool) bool {
+	var joinWithDir func(v ssa.Value, other func(ssa.Value) bool) bool
+	joinWithDir = func(v ssa.Value, other func(ssa.Value) bool) bool {
 		call, ok := v.(*ssa.Call)
 		if !ok {
 			return false
 		}
 		n := c.P.CalleeName(call)
 		if n != "path.Join" && n != "path/filepath.Join" {
-			return false
+			// a helper no rule names that computes the new name: each of its
+			// results is such a Join or the old name unchanged (a relative
+			// symlink target keeps its spelling)
+			rs := eng.ResolveAll(call)
+			if len(rs) == 0 || (len(rs) == 1 && rs[0] == ssa.Value(call)) {
+				return false
+			}
+			joins := 0
+			for _, r := range rs {
+				switch {
+				case joinWithDir(r, other):
+					joins++
+				case other(eng.Strip(r)) || c.DerivesFrom(r, other, 2):
+				default:
+					return false
+				}
+			}
+			return joins > 0
 		}
 		return c.DerivesFrom(call, isDirName, 8) && c.DerivesFrom(call, other, 8)
 	}
